@@ -213,3 +213,5 @@ func init() {
 	}
 	_ = sort.Ints
 }
+
+func yamlUnmarshal(b []byte, v interface{}) error { return yaml.Unmarshal(b, v) }
